@@ -771,7 +771,11 @@ impl Indexable for ast::Value {
         match self.inner_values().count() {
             0 => None,
             1 => first_value_typ,
-            _ => Some(Type::String),
+            // `a # b` concatenates: lists to a list of the same type, anything else to a string
+            _ => match first_value_typ {
+                Some(list_typ @ Type::List(_)) => Some(list_typ),
+                _ => Some(Type::String),
+            },
         }
     }
 }
